@@ -310,6 +310,7 @@ class C11:
                 c["ids"] = "jmix"
             c["gattr"] = rng.choice([0, 0, 3, 7])
             c["dflt"] = rng.choice([0, 1])
+            c["idattr"] = (j % 40 == 5)       # a node attribute named like the id key (known finding D27)
             yield c
 
     @staticmethod
@@ -321,11 +322,14 @@ class C11:
             L.append("gattr 0 %d" % case["gattr"])
         L += ["dump 0", "pres 0 %d %d" % (lo, hi), "nld 0", "nlrt 0 1 %d 1" % case["dflt"], "dump 1", "pres 1 %d %d" % (lo, hi),
               "nlrt 0 2 %d 0" % case["dflt"], "dump 2", "nlrt2 0 3", "dump 3", "pres 3 %d %d" % (lo, hi), "dump 0"]
+        if case.get("idattr"):
+            L.append("nlidattr 0")
         return L
 
     @staticmethod
     def model_skip(line):
-        return False
+        # attribute NAMES are outside the model (attributes are opaque tokens there)
+        return line.startswith("nlidattr")
 
     @staticmethod
     def judge(case, outs):
@@ -365,6 +369,8 @@ class C11:
             fails.append(F("C11.directed_default", expected=case["dflt"], got=dump2["cls"]))
         if dumpG2 != dumpG:
             fails.append(F("C11.source_changed"))
+        if case.get("idattr") and outs[i + 12] != "ok":
+            fails.append(F("C11.attribute_named_like_id_key", got=outs[i + 12]))
         return fails
 
     @staticmethod
